@@ -189,29 +189,48 @@ class Firmware:
 
 
 class Link:
-    """Host->device direction: numbering of transmissions, delay, corruption."""
+    """Host->device direction: numbering of transmissions, FIFO delay, corruption.
 
-    def __init__(self, k, fw, draws, corrupt=None):
+    Corruptions are keyed by the index of the transmission among *numbered* lines
+    (those starting with ``N``): index 0 is the M110 reset of the job, 1.. are the
+    job lines and their retransmissions in the order they actually go out.
+    """
+
+    def __init__(self, k, fw, draws, corrupt=None, corrupt_m110=False):
         self.k = k
         self.fw = fw
         self.draws = draws
-        self.corrupt = dict(corrupt or {})   # tx index -> [mode, position-fraction, replacement]
+        self.corrupt = dict(corrupt or {})   # numbered-tx index -> [mode, position-fraction, replacement]
+        self.corrupt_m110 = corrupt_m110
         self.ntx = 0
+        self.nnum = 0
         self.arrive_until = 0.0
-        self.tx = []  # dict(idx, seq, t, text, corrupted)
+        self.last_fault_seq = 0
+        self.tx = []  # dict(idx, nidx, seq, t, text, corrupted)
 
     def send(self, data):
         idx = self.ntx
         self.ntx += 1
         data = bytes(data)
         sent = data
-        c = self.corrupt.get(idx)
+        nidx = None
+        c = None
+        if data.startswith(b"N"):
+            nidx = self.nnum
+            self.nnum += 1
+            c = self.corrupt.get(nidx)
+            if c is not None and b"M110" in data and not self.corrupt_m110:
+                c = None
+                self.k.probe("fault.corrupt_skipped_m110")
         if c is not None:
             sent = corrupt_line(data, c)
             self.k.probe("fault.corrupt")
-        s = self.k.ev("host->dev", idx, data.decode("latin1").rstrip("\n"), c is not None)
-        self.tx.append({"idx": idx, "seq": s, "t": self.k.now,
-                        "text": data.decode("latin1").rstrip("\n"), "corrupted": c is not None})
+        text = data.decode("latin1").rstrip("\n")
+        s = self.k.ev("host->dev", idx, text, c is not None)
+        if c is not None:
+            self.last_fault_seq = s
+        self.tx.append({"idx": idx, "nidx": nidx, "seq": s, "t": self.k.now, "text": text,
+                        "corrupted": c is not None})
         # the link is FIFO: a transmission never overtakes an earlier one
         t = max(self.arrive_until, self.k.now + self.draws.next("txd", 0.0))
         self.arrive_until = t
